@@ -18,7 +18,13 @@ def sh(cmd, cwd=None, env=None):
 def main():
     sdir, base, infix = sys.argv[1], sys.argv[2], sys.argv[3]
     basep = os.path.join(VERIF, "benign", base, "patch.diff")
-    wt = "/tmp/wt-import"
+    # --confirm-only [--only <substr>] [--wt <dir>]: step 1 alone (touches only the scratch worktree; several may run side by
+    # side, each with its own --wt), leaving <seed>/confirmed.json + combined.diff;  --confirmed: steps 2 and 3 from those files
+    confirm_only, confirmed = "--confirm-only" in sys.argv, "--confirmed" in sys.argv
+    only = sys.argv[sys.argv.index("--only") + 1].split(",") if "--only" in sys.argv else None
+    wt = sys.argv[sys.argv.index("--wt") + 1] if "--wt" in sys.argv else "/tmp/wt-import"
+    if confirmed:
+        return record_all(sdir, base, infix)
     sh(f"git -C /repo worktree remove --force {wt}")
     rc, o = sh(f"git -C /repo worktree add --detach {wt} HEAD")
     env = dict(os.environ, CARGO_TARGET_DIR=wt + "/target", CARGO_NET_OFFLINE="true")
@@ -28,6 +34,8 @@ def main():
                 print("no meta.json:", d)
                 continue
             prop, n = os.path.basename(d).split("-")
+            if only and not any(o_ in os.path.basename(d) for o_ in only):
+                continue
             sid = f"{prop}-{infix}{n}"
             meta = json.load(open(os.path.join(d, "meta.json")))
             sh("git checkout -- . && git clean -fdq -e target", cwd=wt)
@@ -54,6 +62,10 @@ def main():
             print(f"[{sid}] tests_ok={tests_ok} demo_fails_with={fails_with} demo_passes_on_base={passes_without}", flush=True)
             if not (tests_ok and fails_with and passes_without):
                 print(o1[-500:], o2[-500:])
+                continue
+            if confirm_only:
+                open(os.path.join(d, "combined.diff"), "w").write(comb)
+                json.dump({"tests_ok": tests_ok, "fails_with": fails_with, "passes_without": passes_without}, open(os.path.join(d, "confirmed.json"), "w"))
                 continue
             rc, o = sh("git status --short", cwd="/repo")
             assert not o.strip(), "/repo is not clean"
@@ -94,6 +106,50 @@ def main():
         sh("git -C /repo worktree prune")
         if os.path.exists("/tmp/import-combined.diff"):
             os.remove("/tmp/import-combined.diff")
+
+
+def record_all(sdir, base, infix):
+    for d in sorted(glob.glob(os.path.join(sdir, "C*-*"))):
+        if not os.path.exists(os.path.join(d, "confirmed.json")):
+            print("not confirmed:", d)
+            continue
+        prop, n = os.path.basename(d).split("-")
+        sid = f"{prop}-{infix}{n}"
+        meta = json.load(open(os.path.join(d, "meta.json")))
+        c = json.load(open(os.path.join(d, "confirmed.json")))
+        rc, o = sh("git status --short", cwd="/repo")
+        assert not o.strip(), "/repo is not clean"
+        comb = os.path.join(d, "combined.diff")
+        rc, o = sh(f"git apply {comb}", cwd="/repo")
+        assert rc == 0, o
+        fired = {}
+        try:
+            for p in PROPS:
+                rc, o = sh(f"./check {p}", cwd=VERIF)
+                viol = [l for l in o.splitlines() if "violated in" in l or l.startswith("BROKEN")]
+                fired[p] = {"rc": rc, "first": viol[0].strip()[:300] if viol else ""}
+        finally:
+            sh("git checkout -- .", cwd="/repo")
+        caught = [p for p, v in fired.items() if v["rc"] == 1]
+        print(f"[{sid}] caught by: {caught}", flush=True)
+        out = os.path.join(VERIF, "seeded", sid)
+        os.makedirs(out, exist_ok=True)
+        shutil.copy(comb, os.path.join(out, "patch.diff"))
+        shutil.copy(os.path.join(d, "patch.diff"), os.path.join(out, "delta.diff"))
+        shutil.copy(os.path.join(d, "demo.rs"), os.path.join(out, "demo.rs"))
+        meta2 = {"id": sid, "property": prop,
+                 "summary": f"[on top of the composite refactored tree benign/{base}; delta.diff is the change itself] " + str(meta.get("summary", "")),
+                 "needs_to_manifest": meta.get("needs_to_manifest"), "written_against": base,
+                 "note": f"patch.diff applies to /repo itself (composite refactoring + the change); delta.diff is the change alone, relative to benign/{base}",
+                 "demo_location": "tests/seed_demo.rs", "demo_cmd": "cargo test --offline --test seed_demo", "files_changed": meta.get("files_changed"),
+                 "confirmed": {"baseline_tests_pass_with_change": c["tests_ok"], "demo_fails_with_change": c["fails_with"], "demo_passes_without_change": c["passes_without"]},
+                 "what_was_run": [f"scratch worktree of /repo + benign/{base}: demo passes; + the change: cargo test --offline --lib passes, demo fails",
+                                  "git -C /repo apply patch.diff (base + change); ./check <each of 16 properties> (quick); git -C /repo checkout -- ."],
+                 "checks": {p: ("VIOLATION" if v["rc"] == 1 else "silent" if v["rc"] == 0 else "broken") for p, v in fired.items()},
+                 "caught_by": caught, "first_report": {p: fired[p]["first"] for p in caught}}
+        json.dump(meta2, open(os.path.join(out, "meta.json"), "w"), indent=1)
+    for p in PROPS:
+        sh(f"./check {p}", cwd=VERIF)       # evidence of the unchanged tree
 
 
 if __name__ == "__main__":
